@@ -9,9 +9,12 @@ import (
 	"encoding/xml"
 	"fmt"
 	"math/rand"
+	"runtime"
 	"sort"
+	"strconv"
 	"strings"
 	"sync"
+	"sync/atomic"
 	"time"
 
 	xmpp "gosrc.io/xmpp"
@@ -320,8 +323,11 @@ func (c07) Run(inp interface{}) Sx {
 	xid := 0
 	get := false
 	atyp := ""
-	routeSync := func(id int) {
+	var routeSyncG func(id int, after <-chan struct{})
+	routeSync := func(id int) { routeSyncG(id, nil) }
+	routeSyncG = func(id int, after <-chan struct{}) {
 		done := make(chan struct{})
+		var gid int64
 		x := xid
 		xid = 0
 		typ, from := stanza.IQTypeResult, "srv"
@@ -348,6 +354,7 @@ func (c07) Run(inp interface{}) Sx {
 		get, atyp = false, ""
 		go func() {
 			defer close(done)
+			atomic.StoreInt64(&gid, c07Gid())
 			var pkt stanza.Packet
 			if wire {
 				// as it would arrive: decoded from the stream
@@ -367,9 +374,7 @@ func (c07) Run(inp interface{}) Sx {
 			}
 			xmpp.VerifRoute(router, sender, pkt)
 		}()
-		select {
-		case <-done:
-		case <-time.After(150 * time.Millisecond):
+		if !c07Returns(done, &gid, after) {
 			mu.Lock()
 			blocked++
 			mu.Unlock()
@@ -383,7 +388,9 @@ func (c07) Run(inp interface{}) Sx {
 		failed bool
 		late   bool
 		lctx   *c07LateCtx
+		id     string // the id it was ACCEPTED under ("" if refused or failed)
 	}
+	owner := map[string]*req{} // id -> the request whose SendIQ was accepted last under it
 	var reqs []*req
 	var refused []Sx
 	scratch := 0
@@ -442,6 +449,12 @@ func (c07) Run(inp interface{}) Sx {
 			}
 			if isRefused {
 				refused = append(refused, Zi(len(reqs)))
+			}
+			if err == nil {
+				rq.id = fmt.Sprint(o.ID)
+				owner[rq.id] = rq
+			} else if !isRefused {
+				delete(owner, fmt.Sprint(o.ID)) // registered, write failed, unregistered again
 			}
 			reqs = append(reqs, rq)
 			if early != nil {
@@ -538,7 +551,7 @@ func (c07) Run(inp interface{}) Sx {
 			}
 			select {
 			case <-fin:
-			case <-time.After(2 * time.Second):
+			case <-time.After(60 * time.Second): // only reached when a SendIQ call really hangs
 				mu.Lock()
 				blocked++
 				mu.Unlock()
@@ -555,6 +568,8 @@ func (c07) Run(inp interface{}) Sx {
 				}
 				rq := &req{ch: c.ch, cancel: cancel, failed: c.err != nil}
 				if c.err == nil {
+					rq.id = id
+					owner[id] = rq
 					acc++
 				} else {
 					refused = append(refused, Zi(len(reqs)))
@@ -576,6 +591,12 @@ func (c07) Run(inp interface{}) Sx {
 				iq, _ := stanza.NewIQ(stanza.Attrs{Type: stanza.IQTypeGet, Id: fmt.Sprint(newID), To: "srv"})
 				ch, err := s.SendIQ(ctx, iq)
 				rq.ch, rq.cancel, rq.failed = ch, cancel, err != nil
+				if err == nil {
+					mu.Lock()
+					rq.id = fmt.Sprint(newID)
+					owner[rq.id] = rq
+					mu.Unlock()
+				}
 			}
 			mu.Unlock()
 			routeSync(o.ID)
@@ -594,12 +615,14 @@ func (c07) Run(inp interface{}) Sx {
 			// all copies reach the table lookup together: they queue on the exported lock
 			router.IQResultRouteLock.Lock()
 			var wg sync.WaitGroup
+			released := make(chan struct{}) // the watchdog of each call starts once the lock is released
 			for k := 0; k < o.N; k++ {
 				wg.Add(1)
-				go func() { defer wg.Done(); routeSync(o.ID) }()
+				go func() { defer wg.Done(); routeSyncG(o.ID, released) }()
 			}
 			time.Sleep(2 * time.Millisecond)
 			router.IQResultRouteLock.Unlock()
+			close(released)
 			wg.Wait()
 		case "recv":
 			if o.Req < len(reqs) {
@@ -607,10 +630,25 @@ func (c07) Run(inp interface{}) Sx {
 			}
 		case "cancel":
 			if o.Req < len(reqs) {
-				reqs[o.Req].cancel()
-				// let the canceller goroutine run (a late context never wakes it)
-				if !reqs[o.Req].late {
-					for k := 0; k < 100; k++ {
+				rq := reqs[o.Req]
+				rq.cancel()
+				// let the clean-up goroutine run (a late context never wakes it): if this request registered the
+				// id last, wait until its entry is gone (taken by a response earlier, or removed now) - however
+				// long the scheduler takes; otherwise the clean-up has nothing to remove: a short grace only
+				if !rq.late && rq.id != "" {
+					if owner[rq.id] == rq {
+						for dl := time.Now().Add(60 * time.Second); time.Now().Before(dl); {
+							router.IQResultRouteLock.RLock()
+							_, there := router.IQResultRoutes[rq.id]
+							router.IQResultRouteLock.RUnlock()
+							if !there {
+								break
+							}
+							time.Sleep(100 * time.Microsecond)
+						}
+						delete(owner, rq.id)
+					}
+					for k := 0; k < 20; k++ {
 						time.Sleep(100 * time.Microsecond)
 					}
 				}
@@ -637,6 +675,92 @@ func (c07) Run(inp interface{}) Sx {
 		ord[i] = Z(v)
 	}
 	return L(B(false), LS(chs), LS(ord), Zi(blocked), LS(refused))
+}
+
+// c07Gid: the id of the calling goroutine ("goroutine 123 [running]:").
+func c07Gid() int64 {
+	var b [64]byte
+	n := runtime.Stack(b[:], false)
+	f := strings.Fields(string(b[:n]))
+	if len(f) < 2 {
+		return 0
+	}
+	id, _ := strconv.ParseInt(f[1], 10, 64)
+	return id
+}
+
+// c07GoState: the scheduler state of goroutine gid as the runtime prints it ("running", "runnable",
+// "chan send", "sync.RWMutex.Lock", ...), "" when it is gone.
+func c07GoState(gid int64) string {
+	buf := make([]byte, 1<<20)
+	for {
+		n := runtime.Stack(buf, true)
+		if n < len(buf) {
+			buf = buf[:n]
+			break
+		}
+		buf = make([]byte, 2*len(buf))
+	}
+	txt := "\n" + string(buf)
+	key := fmt.Sprintf("\ngoroutine %d [", gid)
+	i := strings.Index(txt, key)
+	if i < 0 {
+		return ""
+	}
+	rest := txt[i+len(key):]
+	j := strings.IndexAny(rest, ",]")
+	if j < 0 {
+		return ""
+	}
+	return rest[:j]
+}
+
+// c07Returns waits for a routing call to return.  A call is reported as blocked by what its goroutine is
+// doing, not by how long it takes: it must be seen PARKED on a channel or lock operation (not running, not
+// runnable) in six consecutive samples 50 ms apart while nothing else in the scenario is going to move - on a
+// loaded machine a call that is merely slow stays runnable and is waited for (bound: 60 s).  When after is
+// non-nil the clock starts once it is closed (the harness itself holds the table lock until then).
+func c07Returns(done <-chan struct{}, gid *int64, after <-chan struct{}) bool {
+	if after != nil {
+		select {
+		case <-done:
+			return true
+		case <-after:
+		}
+	}
+	select {
+	case <-done:
+		return true
+	case <-time.After(100 * time.Millisecond):
+	}
+	parked := 0
+	for deadline := time.Now().Add(60 * time.Second); time.Now().Before(deadline); {
+		select {
+		case <-done:
+			return true
+		case <-time.After(50 * time.Millisecond):
+		}
+		g := atomic.LoadInt64(gid)
+		if g == 0 {
+			continue // not even started yet
+		}
+		switch st := c07GoState(g); {
+		case strings.HasPrefix(st, "chan send"), strings.HasPrefix(st, "chan receive"), strings.HasPrefix(st, "select"),
+			strings.HasPrefix(st, "semacquire"), strings.HasPrefix(st, "sync."):
+			parked++
+			if parked >= 6 {
+				select {
+				case <-done:
+					return true
+				default:
+				}
+				return false
+			}
+		default:
+			parked = 0
+		}
+	}
+	return false
 }
 
 // c07IQ: an IQ as the observation records it: its id, plus 100 when it is a request (get/set).
